@@ -502,14 +502,14 @@ class NDRouterSolicitation (icmp_base):
       offset,o.options = _parse_ndp_options(raw, prev, offset, buf_len)
 
       o.parsed = True
-    except TruncatedException:
+    except Exception:
       pass
 
     o.prev = prev
     return offset,o
 
   def pack (self):
-    o = '\x00' * 4 # _PAD4
+    o = b'\x00' * 4 # _PAD4
     for opt in self.options:
       o += opt.pack()
     return o
@@ -563,7 +563,7 @@ class NDRouterAdvertisement (icmp_base):
       o.is_other = flags & cls.OTHER_FLAG
 
       o.parsed = True
-    except TruncatedException:
+    except Exception:
       pass
 
     o.raw = raw[_offset:offset]
@@ -620,7 +620,7 @@ class NDNeighborSolicitation (icmp_base):
       offset,o.options = _parse_ndp_options(raw, prev, offset, buf_len)
 
       o.parsed = True
-    except TruncatedException:
+    except Exception:
       pass
 
     o.raw = raw[_offset:offset]
@@ -686,7 +686,7 @@ class NDNeighborAdvertisement (icmp_base):
       offset,o.options = _parse_ndp_options(raw, prev, offset, buf_len)
 
       o.parsed = True
-    except TruncatedException:
+    except Exception:
       pass
 
     o.raw = raw[_offset:offset]
